@@ -14,6 +14,7 @@ import (
 	"os"
 	"path/filepath"
 	"reflect"
+	"strconv"
 	"strings"
 	"unicode/utf8"
 
@@ -38,13 +39,13 @@ func realDiskDir() string {
 }
 
 type outcome struct {
-	panicked bool
-	pmsg     string
-	hasVal   bool
+	panicked  bool
+	pmsg      string
+	hasVal    bool
 	nilInside bool
-	hasErr   bool
-	canon    string
-	obj      at.Object
+	hasErr    bool
+	canon     string
+	obj       at.Object
 }
 
 func (o outcome) class() string {
@@ -103,12 +104,12 @@ func parseFil(p string) outcome {
 }
 
 type diskRun struct {
-	res    *RunResult
-	disk   *simrt.Disk
-	real   bool
-	nfile  int
-	where  string
-	failed bool
+	res      *RunResult
+	disk     *simrt.Disk
+	real     bool
+	nfile    int
+	where    string
+	failed   bool
 	oddNames bool
 }
 
@@ -227,7 +228,7 @@ func placements(b []byte) [5][]int {
 }
 
 var diskFaults = []string{"none", "torn", "torn", "torn", "utf8", "utf8", "bitflip", "garbage-span", "dropped-span", "duplicated-span",
-	"zero-tail", "random-bytes", "decorated", "read-fault", "read-fault", "tiny-inputs", "rewrite-in-place", "token-soup", "transcoded", "very-deep"}
+	"zero-tail", "random-bytes", "decorated", "read-fault", "read-fault", "tiny-inputs", "rewrite-in-place", "token-soup", "transcoded", "very-deep", "many-values", "concurrent-readers"}
 
 func genDocument(s *simrt.Sim, objRoot bool) (any, string) {
 	o := treeOpts{depth: 1 + s.Draw("doc-depth", 3), width: 1 + s.Draw("doc-width", 6), jsonSafe: true}
@@ -318,6 +319,9 @@ func runDisk(ch *simrt.Chooser, opt Options) RunResult {
 	res := RunResult{Counters: map[string]int{}}
 	disk := simrt.NewDisk(simMount)
 	cfg := simrt.Config{MaxSteps: 1 << 30, Disk: disk}
+	cfg.Policy = []simrt.Policy{simrt.PolRandom, simrt.PolStall, simrt.PolHighest, simrt.PolRoundRobin}[ch.Draw("policy", 4)]
+	cfg.SwitchPermille = []int{200, 600, 1000}[ch.Draw("switch-rate", 3)]
+	cfg.StallAfterUnlockPermille = 300
 	cfg.KeyOrder = simrt.KeyPolicy(ch.Draw("key-order", int(simrt.NumKeyPolicies)))
 	d := &diskRun{res: &res, disk: disk}
 	out := simrt.Run(ch, cfg, func(s *simrt.Sim) {
@@ -596,6 +600,76 @@ func runDisk(ch *simrt.Chooser, opt Options) RunResult {
 				}
 			}
 			res.Finger = fnv(0, hashString("very-deep"), uint64(depth), uint64(b2i(objRoot)))
+		case "many-values":
+			// more values in one document than any 16-bit counter or fixed budget holds
+			count := []int{65535, 65536, 65537, 70000, 100000, 131073}[s.Draw("many-values", 6)]
+			var sb strings.Builder
+			if objRoot {
+				sb.WriteString("{\"v\":[")
+			} else {
+				sb.WriteString("[")
+			}
+			for i := 0; i < count; i++ {
+				if i > 0 {
+					sb.WriteByte(',')
+				}
+				sb.WriteString([]string{"1", "null", "true", "\"s\"", "2.5"}[i%5])
+			}
+			if objRoot {
+				sb.WriteString("]}")
+			} else {
+				sb.WriteString("]")
+			}
+			fired("many-values")
+			res.Faults = append(res.Faults, fmt.Sprintf("%d values in one list", count))
+			text := sb.String()
+			both([]byte(text), fmt.Sprintf("document with %d values", count))
+			if !d.failed {
+				if oc := parse(text[:len(text)-1-s.Draw("many-cut", 3)]); oc.class() != "error" {
+					d.fail("truncated-accepted", fmt.Sprintf("cut-off document with %d values gives %s", count, oc.class()))
+				}
+			}
+			res.Finger = fnv(0, hashString("many-values"), uint64(count), uint64(b2i(objRoot)))
+		case "concurrent-readers":
+			// several readers, each with its own file, at the same time (scheduling points are whatever synchronisation the
+			// reader path contains); every reader must get what ParseObject gives for its own file's bytes
+			k := 2 + s.Draw("readers", 4)
+			type job struct {
+				path string
+				want outcome
+				got  outcome
+			}
+			jobs := make([]*job, k)
+			for i := range jobs {
+				_, jd := genDocument(s, true)
+				if len(jd) > 20000 {
+					jd = "{\"k\":" + strconv.Itoa(i) + "}"
+				}
+				jobs[i] = &job{path: d.store([]byte(jd)), want: parseObj(jd)}
+			}
+			var wg simrt.WaitGroup
+			wg.Add(k)
+			for _, j := range jobs {
+				j := j
+				s.Client(func() {
+					defer wg.Done()
+					simrt.Yield()
+					j.got = parseFil(j.path)
+				})
+			}
+			wg.Wait()
+			fired("concurrent-readers")
+			res.Faults = append(res.Faults, fmt.Sprintf("%d concurrent ParseFile calls on different files", k))
+			for i, j := range jobs {
+				res.Evals++
+				if !j.got.exclusive() {
+					d.fail("not-exclusive", fmt.Sprintf("concurrent reader %d: ParseFile outcome %s (panic %q)", i, j.got.class(), j.got.pmsg))
+				} else if j.got.class() != j.want.class() || j.got.canon != j.want.canon {
+					d.fail("parsefile-differs", fmt.Sprintf("concurrent reader %d of %d: ParseFile gives %s %s, ParseObject on its file's bytes gives %s %s", i, k,
+						j.got.class(), short(j.got.canon, 100), j.want.class(), short(j.want.canon, 100)))
+				}
+			}
+			res.Finger = fnv(0, hashString("concurrent-readers"), uint64(k), hashString(doc))
 		case "tiny-inputs":
 			// every 1-byte input, every 2-byte input over an alphabet of structural and boundary bytes, drawn 3-byte inputs:
 			// totality on the shortest inputs (empty, a lone bracket, a lone lead byte, a byte order mark cut short)
